@@ -476,17 +476,19 @@ _NAMES_BY_TYPE = [
     (A, ['a', 'b', 'c']), (fun(NAT, NAT), ['f', 'g', 'h']), (tset(NAT), ['S', 'T', 'U']), (tlist(NAT), ['xs', 'ys', 'zs']),
     (tset(A), ['A', 'B', 'C']), (tlist(A), ['as', 'bs', 'cs']), (fun(NAT, BOOL), ['P', 'Q', 'R']),
 ]
-_type_index = {}
-
-
 def atom_name(T, i):
-    key = json.dumps(T)
+    """Name of the i-th atom of type T in ladder frames: one name per (type, position), so that a name has one type.
+    A pure function of the type (no process-wide counter: shards must not influence each other)."""
+    from vlib.harness import digest
     for Ty, names in _NAMES_BY_TYPE:
         if Ty == T and i < len(names):
             return names[i]
-    if key not in _type_index:
-        _type_index[key] = len(_type_index)
-    return 'w%d%s' % (_type_index[key], 'abcdefgh'[i])
+    h = digest(json.dumps(T)) % (36 ** 3)
+    code = ''
+    for _ in range(3):
+        code = '0123456789abcdefghijklmnopqrstuvwxyz'[h % 36] + code
+        h //= 36
+    return 'w%s%s' % (code, 'abcdefgh'[i])
 
 
 def atom(T, i):
